@@ -30,6 +30,7 @@
 (*   text    a text LOCK/UNLOCK converts to the documented binary command  *)
 (*   render  every result code has a text rendering with the result fields *)
 (*   srvbin, srvtext  (server side) see below                              *)
+(*   seq     sequences of requests on one connection (server side), below  *)
 (*                                                                         *)
 (* A mismatch of an `obs` event is additionally CLASSIFIED: if the         *)
 (* implementation-shaped parser of RespParser.tla with the named deviation *)
@@ -68,7 +69,7 @@ Check(mm, cond, code, detail) == IF cond THEN mm ELSE Report(mm, code, detail)
 
 Note(tag, detail) == PrintT(tag \o " " \o ToJson([line |-> l, detail |-> detail]))
 
-M0 == [nv |-> 0, bytes |-> <<>>, mode |-> "req", id |-> 0 - 1, expect |-> <<>>, raw |-> FALSE, agnostic |-> 0, judged |-> 0]
+M0 == [nv |-> 0, bytes |-> <<>>, mode |-> "req", id |-> 0 - 1, expect |-> <<>>, raw |-> FALSE, agnostic |-> 0, judged |-> 0, prev |-> <<>>, keys |-> <<>>]
 
 Has(e, f) == f \in DOMAIN e
 Str(e, f) == IF Has(e, f) THEN e[f] ELSE ""
@@ -329,6 +330,210 @@ StepSrvText(mm, e) ==
                              [id |-> e.id, step |-> e.step, cause |-> cause, cuts |-> e.cuts, args |-> e.args, text |-> e.tsnap, binary |-> e.bsnap])
 
 -----------------------------------------------------------------------------
+\* sequences of requests on ONE connection (harness/inpkg/server/zz_verif_wseq_test.go, spec/WireSeq.tla)
+\*
+\* seq: step `step` of a sequence replayed in lockstep on one real text connection (`trb`: its reply bytes), one real
+\* binary connection (`brb`, `brdata`: reply frame and value frame) and the twin path with fresh objects (`ref`).
+\* C14 quantifies over requests: the result of THIS request is the engine's answer to it, whatever the connection
+\* rendered before.  Clauses (every one names behaviour of the real code):
+\*   server-text-path-failed / server-binary-path-failed   the serving loop of the connection ended while serving
+\*                                                         well-formed requests (`tdone` / `bdone`: how)
+\*   rendered-reply-malformed        the text reply is not the layout of Wire!DataTail: the announced number of
+\*                                   elements is not 12 / 14, differs from the elements written, the DATA pair is
+\*                                   incomplete, bytes follow the reply
+\*   text-result-differs-from-binary-result   a result field of the text reply (code, LOCK_ID, LCOUNT, COUNT, LRCOUNT,
+\*                                   RCOUNT, carries-a-value, the value) differs from the binary reply to the
+\*                                   equivalent command
+\*   text-and-binary-effects-differ  holders / waiters / value of the key differ between the two databases
+\*   binary-reply-malformed          the reply frame announces a value frame that does not arrive (or is cut)
+\*   server-inline-*                 as for srvbin, against the twin with fresh objects (recycled LockCommand objects,
+\*                                   the one reply buffer)
+\*   server-binary-effects-differ-from-twin
+\* `after`: the shape of the previous result on the same connections (what a recycled object could still hold).
+
+AllDigits(s) == Len(s) > 0 /\ \A i \in 1..Len(s) : IsDigit(s[i])
+IsIntLine(s) == AllDigits(s) \/ (Len(s) > 1 /\ s[1] = MINUS /\ AllDigits(Tail(s)))
+
+\* position behind one complete reply element starting at p (0: none)
+ElemEnd(b, p) ==
+    IF p > Len(b) THEN 0
+    ELSE CASE b[p] = COLON  -> LET h == PGood!RefLine(b, p + 1, Len(b)) IN IF h.st = "ok" /\ IsIntLine(h.text) THEN h.next ELSE 0
+           [] b[p] = DOLLAR -> LET r == PGood!RefBulk(b, p, Len(b)) IN IF r.st = "ok" THEN r.next ELSE 0
+           [] b[p] = STAR   -> LET r == PGood!RefArray(b, p, Len(b), PGood!T_ARRAY) IN IF r.st = "ok" THEN r.next ELSE 0
+           [] OTHER -> 0
+
+NilBulk == <<DOLLAR, MINUS, 49, CR, LF>>
+
+\* the text reply to a LOCK / UNLOCK, read by the layout: header, twelve bulk strings, the rest
+LockReplyRead(b) ==
+    LET none == [hdr |-> FALSE, n |-> 0 - 1, twelve |-> FALSE, args |-> <<>>, rest |-> <<>>] IN
+    IF Len(b) = 0 \/ b[1] # STAR THEN none
+    ELSE LET h == PGood!RefLine(b, 2, Len(b)) IN
+         IF h.st # "ok" \/ ~IsDecimal(h.text) THEN none
+         ELSE LET r == PGood!RefBulks(b, h.next, Len(b), 12, <<>>) IN
+              IF r.st # "ok" THEN [none EXCEPT !.hdr = TRUE, !.n = DecValue(h.text)]
+              ELSE [hdr |-> TRUE, n |-> DecValue(h.text), twelve |-> TRUE, args |-> r.args, rest |-> SubSeq(b, r.next, Len(b))]
+
+LockReplyWellFormed(rd) ==
+    /\ rd.hdr /\ rd.twelve
+    /\ \/ rd.n = 12 /\ rd.rest = <<>>
+       \/ /\ rd.n = 14
+          /\ LET k == Len(RBulk(K_DATA)) IN
+             /\ Len(rd.rest) > k /\ SubSeq(rd.rest, 1, k) = RBulk(K_DATA)
+             /\ ElemEnd(rd.rest, k + 1) = Len(rd.rest) + 1
+
+\* a read in between may also answer with a status line
+ReadReplyComplete(b) ==
+    \/ b = NilBulk
+    \/ ElemEnd(b, 1) = Len(b) + 1
+    \/ (Len(b) > 0 /\ b[1] \in {PLUS, MINUS} /\ LET h == PGood!RefLine(b, 2, Len(b)) IN h.st = "ok" /\ h.next = Len(b) + 1)
+
+ErrorLineOnly(b) == /\ Len(b) > 0 /\ b[1] = MINUS
+                    /\ LET h == PGood!RefLine(b, 2, Len(b)) IN h.st = "ok" /\ h.next = Len(b) + 1
+
+\* kind of value a frame carries ("none": no frame)
+ValueKind(fr) ==
+    IF Len(fr) < 6 THEN "none"
+    ELSE LET fl == fr[6] IN
+         IF HasBit(fl, VALUE_TYPE_NUMBER) THEN "number" ELSE IF HasBit(fl, VALUE_TYPE_ARRAY) THEN "array"
+         ELSE IF HasBit(fl, VALUE_TYPE_KV) THEN "kv" ELSE "string"
+
+\* mm.keys: per (db, key) of the running sequence, the latest step on it: its value operation, the kind of value the key had
+\* before it (every result of a key with a value carries it), its result, and - once the value seen is not a payload of
+\* its own type - the operation that made it so (`origin`: the value operation of the last step that still saw a
+\* well-typed value, as "<operation>-on-<kind>").
+KeyEntry(mm, e) == {i \in 1..Len(mm.keys) : mm.keys[i].db = e.l.db /\ mm.keys[i].key = e.l.key}
+MadeBy(mm, e, ill) ==
+    IF ~ill THEN ""
+    ELSE LET R == KeyEntry(mm, e) IN
+         IF R = {} THEN "unknown"
+         ELSE LET r == mm.keys[Max(R)] IN
+              IF r.origin # "" THEN r.origin
+              ELSE IF r.res = 0 /\ r.dop # "none" THEN r.dop \o "-on-" \o r.kind ELSE "unknown"
+IllTypedSeen(e) ==
+    IF e.hasbin THEN Len(e.brb) = FRAME /\ HasBit(e.brb[21], 32) /\ Len(e.brdata) >= 6 /\ ~ValueWellTyped(e.brdata)
+    ELSE Len(e.bval) >= 6 /\ ~ValueWellTyped(e.bval)
+KeysAfter(mm, e) ==
+    IF ~(e.hasbin /\ Len(e.brb) = FRAME) THEN mm.keys
+    ELSE LET rec == [db |-> e.l.db, key |-> e.l.key, dop |-> e.l.dop, kind |-> ValueKind(e.brdata), res |-> e.brb[20],
+                     origin |-> MadeBy(mm, e, IllTypedSeen(e))]
+         IN SelectSeq(mm.keys, LAMBDA x : ~(x.db = e.l.db /\ x.key = e.l.key)) \o <<rec>>
+
+SeqAfter(mm, e) == IF e.step = 0 \/ mm.prev = <<>> THEN [first |-> TRUE] ELSE mm.prev[1]
+
+\* the binary half: decoder and encoder of the connection against the twin / the documented UNKNOWN_DB answer
+SeqBin(mm, e) ==
+    LET after == SeqAfter(mm, e)
+        want == Decode("lock", e.bin)
+        complete == Len(e.brb) = FRAME /\ ~e.bquiet /\ (HasBit(e.brb[21], 32) => Len(e.brdata) >= 6 /\ Len(e.brdata) = 4 + DecodeValueFrame(e.brdata).len)
+        m1 == Check(mm, e.bdone = "", "server-binary-path-failed", [id |-> e.id, step |-> e.step, letter |-> e.l, after |-> after, how |-> e.bdone])
+    IN IF e.bdone # "" THEN m1
+       ELSE IF ~complete
+       THEN Report(m1, "binary-reply-malformed", [id |-> e.id, step |-> e.step, letter |-> e.l, after |-> after, frame_bytes |-> Len(e.brb),
+                                                  announces_value_frame |-> Len(e.brb) = FRAME /\ HasBit(e.brb[21], 32), value_frame_bytes |-> Len(e.brdata)])
+       ELSE IF ~e.refnone
+       THEN StepSrvBin(m1, [k |-> "srvbin", id |-> e.id, step |-> e.step, panic |-> "", err |-> "", b |-> e.bin, cmd |-> e.cmd, tpre |-> e.tpre, tcmd |-> e.tcmd,
+                            rb |-> e.brb, rdata |-> e.brdata, ref |-> e.ref])
+       ELSE \* the request names no usable database: UNKNOWN_DB, nothing counted, no value frame; ids and counts echoed
+            LET dfc == DiffFields("lock", e.cmd, e.tpre) \ {"Magic", "Version"}
+                m2 == Check(m1, DiffFields("lock", e.tpre, want) = {} /\ dfc = {}, "server-inline-decode-differs",
+                            [id |-> e.id, step |-> e.step, fields |-> SetToSeq(dfc), command_type |-> ValueOf(want.CommandType), where |-> "unknown-db"])
+                rv == [Magic |-> <<MAGIC>>, Version |-> <<VERSION>>, CommandType |-> want.CommandType, RequestId |-> want.RequestId,
+                       Result |-> <<3>>, Flag |-> <<0>>, DbId |-> want.DbId, LockId |-> want.LockId, LockKey |-> want.LockKey,
+                       Lcount |-> <<0, 0>>, Count |-> want.Count, Lrcount |-> <<0>>, Rcount |-> want.Rcount]
+                bad == DiffAt(e.brb, Encode("r_lock", rv), Defined("r_lock"))
+            IN Check(m2, bad = {} /\ e.brdata = <<>>, "server-inline-result-encode-differs",
+                     [id |-> e.id, step |-> e.step, offsets |-> [i \in 1..Len(Few(bad)) |-> Few(bad)[i] - 1], fields |-> SetToSeq(FieldsAt("r_lock", bad)),
+                      where |-> "unknown-db", after |-> after])
+
+\* the text half against the binary reply
+SeqText(mm, e) ==
+    LET after == SeqAfter(mm, e)
+        \* cause "value-ill-typed": the result to render carries a value that is not a payload of its own value type
+        \* (seen on the binary connection's reply to the same request); otherwise "sequence"
+        \* (a read in between has no binary request: `bval` is the key's value in the binary connection's database)
+        illTyped == IllTypedSeen(e)
+        m1 == Check(mm, e.tdone = "", "server-text-path-failed",
+                    [id |-> e.id, step |-> e.step, cause |-> IF illTyped THEN "value-ill-typed" ELSE "sequence",
+                     made_by |-> MadeBy(mm, e, illTyped), letter |-> e.l, after |-> after, how |-> e.tdone, args |-> e.args,
+                     reply_so_far |-> IF Len(e.trb) <= 200 THEN e.trb ELSE <<>>])
+        unknownDb == e.l.db \in {"bad", "nodb"}
+    IN IF e.l.op = "get"
+       THEN \* a read in between: one complete reply element (not a LOCK / UNLOCK: nothing else is demanded here)
+            IF e.tdone # "" THEN m1
+            ELSE Check(m1, ~e.tquiet /\ ReadReplyComplete(e.trb), "rendered-reply-malformed",
+                       [id |-> e.id, step |-> e.step, letter |-> e.l, after |-> after, where |-> "read", reply |-> e.trb])
+       ELSE IF unknownDb
+       THEN IF e.tdone # "" THEN m1
+            ELSE Check(m1, ~e.tquiet /\ ErrorLineOnly(e.trb), "rendered-reply-malformed",
+                       [id |-> e.id, step |-> e.step, letter |-> e.l, after |-> after, where |-> "unknown-db", reply |-> e.trb])
+       ELSE LET rd == LockReplyRead(e.trb)
+                wf == ~e.tquiet /\ LockReplyWellFormed(rd)
+                \* (an ill-typed value has no layout: the reply the dying loop left behind is then not judged as one)
+                m2 == Check(m1, wf \/ (e.tdone # "" /\ illTyped), "rendered-reply-malformed",
+                            [id |-> e.id, step |-> e.step, letter |-> e.l, after |-> after, where |-> "lock-result",
+                             announced_elements |-> rd.n, twelve_elements_read |-> rd.twelve, bytes_behind_them |-> Len(rd.rest),
+                             went_quiet |-> e.tquiet, reply |-> IF Len(e.trb) <= 260 THEN e.trb ELSE <<>>])
+                binOK == e.hasbin /\ e.bdone = "" /\ ~e.bquiet /\ Len(e.brb) = FRAME
+            IN IF ~binOK THEN m2
+               ELSE LET br == ResultRec(Decode("r_lock", e.brb))
+                        binHas == HasBit(e.brb[21], 32)
+                        de == IF binHas /\ Len(e.brdata) >= 6 THEN DataElement(e.brdata) ELSE [fixed |-> FALSE, bytes |-> <<>>]
+                        badF == IF ~rd.hdr THEN {"(not a result array)"}
+                                ELSE (IF (rd.n = 14) # binHas THEN {"carries-a-value"} ELSE {})
+                                     \cup (IF rd.twelve /\ ~RenderingOK(rd.args, br) THEN {"result-fields"} ELSE {})
+                                     \cup (IF wf /\ rd.n = 14 /\ binHas /\ de.fixed /\ rd.rest # RBulk(K_DATA) \o de.bytes THEN {"value"} ELSE {})
+                    IN Check(m2, badF = {}, "text-result-differs-from-binary-result",
+                             [id |-> e.id, step |-> e.step, cause |-> "sequence", letter |-> e.l, after |-> after, fields |-> SetToSeq(badF), args |-> e.args,
+                              binary_result |-> br, binary_carries_value |-> binHas, text_announces |-> rd.n,
+                              text_reply |-> rd.args, text_tail |-> IF Len(rd.rest) <= 120 THEN rd.rest ELSE <<>>])
+
+SeqShapeOf(e) ==
+    IF e.hasbin /\ Len(e.brb) = FRAME
+    THEN LET br == ResultRec(Decode("r_lock", e.brb)) IN
+         [letter |-> e.l, result |-> br.Result, carries_value |-> HasBit(e.brb[21], 32), lcount |-> br.Lcount, lrcount |-> br.Lrcount]
+    ELSE [letter |-> e.l, text_only |-> TRUE]
+
+StepSeq(mm, e) ==
+    LET m0 == IF e.step = 0 THEN [mm EXCEPT !.prev = <<>>, !.keys = <<>>] ELSE mm
+        ok == e.panic = "" /\ e.err = ""
+        m1 == Check(m0, ok, "server-sequence-path-failed", [id |-> e.id, step |-> e.step, letter |-> e.l, err |-> e.err, panic |-> e.panic])
+    IN IF ~ok THEN m1
+       ELSE
+       LET \* is the binary request the harness sent the equivalent of the text request (spec: TextToCommand, TextValueFrame)?
+           twinOK == ~(e.hastext /\ e.hasbin) \/
+                     (/\ TextWellFormedV(e.args)
+                      /\ LET w == TextToCommand(e.args, e.md5s)
+                             vf == TextValueFrame(e.args)
+                             bv == Decode("lock", e.bin)
+                         IN /\ NumOf(bv, "CommandType") = w.CommandType /\ bv.LockKey = w.LockKey /\ (w.HasLockId => bv.LockId = w.LockId)
+                            /\ NumOf(bv, "Flag") = (IF vf # <<>> /\ ~HasBit(w.Flag, 32) THEN w.Flag + 32 ELSE w.Flag)
+                            /\ NumOf(bv, "Timeout") = w.Timeout /\ NumOf(bv, "TimeoutFlag") = w.TimeoutFlag
+                            /\ NumOf(bv, "Expried") = w.Expried /\ NumOf(bv, "ExpriedFlag") = w.ExpriedFlag
+                            /\ NumOf(bv, "Count") = w.Count /\ NumOf(bv, "Rcount") = w.Rcount
+                            /\ e.data = vf)
+       IN IF ~twinOK
+          THEN IF Note("TWINBAD", [id |-> e.id, step |-> e.step]) THEN [m1 EXCEPT !.agnostic = @ + 1] ELSE m1
+          ELSE
+          LET m2 == IF e.hasbin THEN SeqBin(m1, e) ELSE m1
+              m3 == IF e.hastext THEN SeqText(m2, e) ELSE m2
+              m4 == IF e.snaps /\ e.hastext
+                    THEN Check(m3, e.tsnap = e.bsnap, "text-and-binary-effects-differ",
+                               [id |-> e.id, step |-> e.step, cause |-> "sequence", letter |-> e.l, after |-> SeqAfter(mm, e), args |-> e.args, text |-> e.tsnap, binary |-> e.bsnap])
+                    ELSE m3
+              m5 == IF e.snaps
+                    THEN Check(m4, e.bsnap = e.wsnap, "server-binary-effects-differ-from-twin",
+                               [id |-> e.id, step |-> e.step, letter |-> e.l, after |-> SeqAfter(mm, e), connection |-> e.bsnap, twin |-> e.wsnap])
+                    ELSE m4
+              \* refinement note (never a verdict): the abstract engine of WireSeq predicted another shape
+              sh == SeqShapeOf(e)
+              predOK == ~(e.hasbin /\ Len(e.brb) = FRAME) \/
+                        (/\ e.pred.res = sh.result /\ (e.pred.data # "none") = sh.carries_value
+                         /\ e.pred.lc = sh.lcount /\ e.pred.lrc = sh.lrcount)
+              m6 == IF predOK THEN m5 ELSE IF Note("SEQDIV", [id |-> e.id, step |-> e.step, letter |-> e.l, pred |-> e.pred, got |-> sh]) THEN m5 ELSE m5
+          IN [m6 EXCEPT !.prev = <<sh>>, !.keys = KeysAfter(m0, e)]
+
+-----------------------------------------------------------------------------
 Step(mm, e) ==
     CASE e.k = "enc"     -> StepEnc(mm, e)
       [] e.k = "dec"     -> StepDec(mm, e)
@@ -341,6 +546,7 @@ Step(mm, e) ==
       [] e.k = "render"  -> StepRender(mm, e)
       [] e.k = "srvbin"  -> StepSrvBin(mm, e)
       [] e.k = "srvtext" -> StepSrvText(mm, e)
+      [] e.k = "seq"     -> StepSeq(mm, e)
       [] OTHER           -> mm
 
 Init == l = 1 /\ m = M0
